@@ -28,8 +28,9 @@ Proof. by split_and!. Qed.
 
 (** The recursion, for every manager satisfying the invariant, any memo
     whose entries are correct, any list [ord] that still contains the
-    quantified levels at or below [u]; the only exception is the reordering
-    request (nested call or reordering enabled). *)
+    quantified levels at or below [u]; the only exceptions are the reordering
+    request (nested call or reordering enabled) and the full table
+    ([RuntimeError], only when a bound [max_nodes] is set). *)
 Theorem C03_quantify_rec fuel s u ord q fa cache r s' :
   Inv s → valid s u → no_reorder s →
   ord_ok s u ord q →
@@ -40,7 +41,8 @@ Theorem C03_quantify_rec fuel s u ord q fa cache r s' :
   match r with
   | Ok (x, cache') => valid s' x ∧ lvl_of s u ≤ lvl_of s' x ∧ cache_ok s' q fa cache' ∧
         ∀ a, D s' x a = true ↔ qsem s fa q u a
-  | Err e => e = ENeedsReordering ∧ is_Some (last_len s)
+  | Err e => (e = ENeedsReordering ∧ is_Some (last_len s)) ∨
+               (e = ERuntime ∧ is_Some (max_nodes s))
   end.
 Proof. exact (quantify_rec_spec fuel s u ord q fa cache r s'). Qed.
 
@@ -50,12 +52,13 @@ Theorem C03_quantify_rec_initial s u q fa :
   ord_ok s u (sorted_levels q) q ∧ cache_ok s q fa ∅.
 Proof. exact (conj (ord_ok_sorted_levels s u q) (cache_ok_empty s q fa)). Qed.
 
-(** The public method, dynamic reordering disabled: whenever the quantified
+(** The public method, dynamic reordering disabled and no bound on the
+    number of nodes ([max_nodes s = None]): whenever the quantified
     variables map to the level set [q], the call succeeds and the result
     denotes the abstraction of [u] over [q]; every old reference keeps its
     meaning ([extends]). *)
 Theorem C03_quantify_correct s u byname qvars fa q r s' :
-  Inv s → valid s u → last_len s = None →
+  Inv s → valid s u → last_len s = None → max_nodes s = None →
   fst (map_to_level_set byname qvars s) = Ok q →
   quantify u byname qvars fa s = (r, s') →
   ∃ x, r = Ok x ∧ Inv s' ∧ extends s s' ∧ valid s' x ∧
@@ -65,7 +68,7 @@ Proof. exact (quantify_spec s u byname qvars fa q r s'). Qed.
 (** The same with the hypothesis on [_map_to_level] stated in the state in
     which the decorated body runs. *)
 Theorem C03_quantify_correct_ctx s u byname qvars fa q r s' :
-  Inv s → valid s u → last_len s = None →
+  Inv s → valid s u → last_len s = None → max_nodes s = None →
   map_to_level_set byname qvars (s <| rctx := true |>) = (Ok q, s <| rctx := true |>) →
   quantify u byname qvars fa s = (r, s') →
   ∃ x, r = Ok x ∧ Inv s' ∧ extends s s' ∧ valid s' x ∧
@@ -93,7 +96,7 @@ Proof. exact (map_to_level_set_levels s ks). Qed.
 
 (** The result does not depend on the quantified levels. *)
 Theorem C03_quantify_independent s u byname qvars fa q x s' a a' :
-  Inv s → valid s u → last_len s = None →
+  Inv s → valid s u → last_len s = None → max_nodes s = None →
   fst (map_to_level_set byname qvars s) = Ok q →
   quantify u byname qvars fa s = (Ok x, s') →
   agree_off q a a' → D s' x a = D s' x a'.
@@ -102,7 +105,7 @@ Proof. exact (quantify_indep s u byname qvars fa q x s' a a'). Qed.
 (** Quantifying over levels on which [u] does not depend returns the very
     same reference; in particular for the empty set of variables. *)
 Theorem C03_quantify_noop s u byname qvars fa q x s' :
-  Inv s → valid s u → last_len s = None →
+  Inv s → valid s u → last_len s = None → max_nodes s = None →
   fst (map_to_level_set byname qvars s) = Ok q →
   quantify u byname qvars fa s = (Ok x, s') →
   (∀ a b, agree_off q a b → D s u a = D s u b) →
@@ -110,7 +113,7 @@ Theorem C03_quantify_noop s u byname qvars fa q x s' :
 Proof. exact (quantify_noop s u byname qvars fa q x s'). Qed.
 
 Theorem C03_quantify_noop_empty s u byname qvars fa x s' :
-  Inv s → valid s u → last_len s = None →
+  Inv s → valid s u → last_len s = None → max_nodes s = None →
   fst (map_to_level_set byname qvars s) = Ok ∅ →
   quantify u byname qvars fa s = (Ok x, s') →
   x = u.
@@ -134,7 +137,7 @@ Example C03_nonvacuous :
               OApply "and" 2 (Some 3%Z) None; OApply "\/" 5 (Some 4%Z) None]
              world_empty in
   let s := world_get w 0 in
-  mem 7 s = true ∧ last_len s = None ∧
+  mem 7 s = true ∧ last_len s = None ∧ max_nodes s = None ∧
   match fst (map_to_level_set true [1] s) with
   | Ok q => Some (elements q) | Err _ => None end = Some [1] ∧
   succ s !! 8%positive = None ∧
